@@ -64,12 +64,44 @@ static const char* rep_problem(const lp_polynomial_context_t* ctx, const coeffic
   return NULL;
 }
 
-static void print_obj(const lp_polynomial_t* p) {
-  pio_print(p);
+/* canonical text of p (same as pio_print) in a malloc'ed string */
+static char* pio_sprint(const lp_polynomial_t* p) {
+  char* buf = NULL; size_t len = 0;
+  FILE* f = open_memstream(&buf, &len);
+  pio_nterms = 0;
+  lp_polynomial_traverse(p, pio_collect, NULL);
+  if (pio_nterms == 0) fputs("0", f);
+  else {
+    qsort(pio_terms, pio_nterms, sizeof(pio_term_t), pio_term_cmp_desc);
+    for (size_t i = 0; i < pio_nterms; ++i) {
+      if (i) fputc('+', f);
+      fputs(pio_terms[i].coef, f);
+      for (int k = 0; k < pio_terms[i].nv; ++k) fprintf(f, "*x%d^%lu", pio_terms[i].var[k], pio_terms[i].exp[k]);
+      free(pio_terms[i].coef);
+    }
+  }
+  fclose(f);
+  return buf;
+}
+
+/* Prints text:degree:top[!problem] of p and returns the text (caller frees).  lp_polynomial_degree and
+ * lp_polynomial_top_variable are ALSO called as the first API call on operands that nothing has touched since
+ * pio_new (with VERIF_STALE=1 these are external polynomials still laid out for the reversed order); the two
+ * answers must agree, else both are printed. */
+static char* print_obj(const lp_polynomial_t* p) {
+  char* t = pio_sprint(p);
+  fputs(t, stdout);
   lp_variable_t top = lp_polynomial_top_variable(p);
-  printf(":%zu:%d", lp_polynomial_degree(p), lp_polynomial_is_constant(p) ? -1 : pio_var_index(top));
+  size_t deg = lp_polynomial_degree(p);
+  int topi = lp_polynomial_is_constant(p) ? -1 : pio_var_index(top);
+  lp_polynomial_t* f1 = pio_new(t); size_t deg1 = lp_polynomial_degree(f1); lp_polynomial_delete(f1);
+  lp_polynomial_t* f2 = pio_new(t); lp_variable_t top1 = lp_polynomial_top_variable(f2);
+  int topi1 = lp_polynomial_is_constant(f2) ? -1 : pio_var_index(top1); lp_polynomial_delete(f2);
+  printf(":%zu:%d", deg, topi);
+  if (deg1 != deg || topi1 != topi) printf("(fresh-operand:%zu:%d)", deg1, topi1);
   const char* r = rep_problem(p->ctx, &p->data);
   if (r) printf("!%s", r);
+  return t;
 }
 
 /* ---- univariate helpers */
@@ -141,51 +173,94 @@ static void print_monomial(const lp_monomial_t* m) {
       if (pio_var_index(m->p[i].x) == v && m->p[i].d > 0) printf("*x%d^%zu", v, m->p[i].d);
 }
 
+#define IDX(j) atoi(vtok[k + (j)])
+/* the operations that write a pool object; executed on the array Q (the pool, or fresh operands); returns the
+ * number of tokens of the operation, 0 if vtok[k] is not such an operation */
+static int do_op(lp_polynomial_t** Q, int k) {
+  const char* op = vtok[k];
+  if (!strcmp(op, "add")) { lp_polynomial_add(Q[IDX(1)], Q[IDX(2)], Q[IDX(3)]); return 4; }
+  if (!strcmp(op, "sub")) { lp_polynomial_sub(Q[IDX(1)], Q[IDX(2)], Q[IDX(3)]); return 4; }
+  if (!strcmp(op, "mul")) { lp_polynomial_mul(Q[IDX(1)], Q[IDX(2)], Q[IDX(3)]); return 4; }
+  if (!strcmp(op, "addmul")) { lp_polynomial_add_mul(Q[IDX(1)], Q[IDX(2)], Q[IDX(3)]); return 4; }
+  if (!strcmp(op, "submul")) { lp_polynomial_sub_mul(Q[IDX(1)], Q[IDX(2)], Q[IDX(3)]); return 4; }
+  if (!strcmp(op, "neg")) { lp_polynomial_neg(Q[IDX(1)], Q[IDX(2)]); return 3; }
+  if (!strcmp(op, "asg")) { lp_polynomial_assign(Q[IDX(1)], Q[IDX(2)]); return 3; }
+  if (!strcmp(op, "der")) { lp_polynomial_derivative(Q[IDX(1)], Q[IDX(2)]); return 3; }
+  if (!strcmp(op, "red")) { lp_polynomial_reductum(Q[IDX(1)], Q[IDX(2)]); return 3; }
+  if (!strcmp(op, "gcoef")) { lp_polynomial_get_coefficient(Q[IDX(1)], Q[IDX(2)], (size_t) IDX(3)); return 4; }
+  if (!strcmp(op, "mulc")) {
+    lp_integer_t c; mpz_init_set_str(&c, vtok[k + 3], 10);
+    lp_polynomial_mul_integer(Q[IDX(1)], Q[IDX(2)], &c); mpz_clear(&c); return 4;
+  }
+  if (!strcmp(op, "pow")) { lp_polynomial_pow(Q[IDX(1)], Q[IDX(2)], (unsigned) IDX(3)); return 4; }
+  if (!strcmp(op, "shl")) { lp_polynomial_shl(Q[IDX(1)], Q[IDX(2)], (unsigned) IDX(3)); return 4; }
+  if (!strcmp(op, "addmon")) {
+    /* one term "c*xI^E..." added with lp_polynomial_add_monomial, variables pushed in the order written */
+    const char* c = vtok[k + 2];
+    const char* e = c; if (*e == '-') ++e; while (*e >= '0' && *e <= '9') ++e;
+    char* num = strndup(c, (size_t)(e - c));
+    lp_integer_t a; mpz_init_set_str(&a, num, 10); free(num);
+    lp_monomial_t m; lp_monomial_construct(pio_ctx, &m); lp_monomial_set_coefficient(pio_ctx, &m, &a);
+    c = e;
+    while (*c == '*') { c += 2; int idx = (int) strtol(c, (char**)&c, 10); ++c; unsigned long ex = strtoul(c, (char**)&c, 10);
+      if (ex > 0) lp_monomial_push(&m, pio_x[idx], (size_t) ex); }
+    lp_polynomial_add_monomial(Q[IDX(1)], &m);
+    lp_monomial_destruct(&m); mpz_clear(&a); return 3;
+  }
+  if (!strcmp(op, "addmon2")) {
+    /* add_monomial with a monomial produced by the lp_monomial_* helpers, and through a copy */
+    lp_monomial_t m, m2; lp_monomial_construct(pio_ctx, &m);
+    mk_monomial(vtok[k + 2], &m, 0);
+    lp_monomial_construct_copy(pio_ctx, &m2, &m, IDX(1) % 2);
+    lp_polynomial_add_monomial(Q[IDX(1)], &m2);
+    lp_monomial_destruct(&m); lp_monomial_destruct(&m2); return 3;
+  }
+  return 0;
+}
+static int op_is_dest(const char* op) {
+  static const char* names[] = {"add","sub","mul","addmul","submul","neg","asg","der","red","gcoef","mulc","pow","shl","addmon","addmon2",NULL};
+  for (int i = 0; names[i]; ++i) if (!strcmp(op, names[i])) return 1;
+  return 0;
+}
+/* number of leading pool indices among the arguments of a destination operation */
+static int op_nidx(const char* op) {
+  if (!strcmp(op, "add") || !strcmp(op, "sub") || !strcmp(op, "mul") || !strcmp(op, "addmul") || !strcmp(op, "submul")) return 3;
+  if (!strcmp(op, "addmon") || !strcmp(op, "addmon2")) return 1;
+  return 2;
+}
+
 static void run_mv(void) {
   lp_int_ring_t* K = mkring(vtok[1]);
   pio_init(K);
   set_order_from(vtok[2]);
   int n = atoi(vtok[3]);
   lp_polynomial_t* P[MAXPOOL];
+  char* T[MAXPOOL];              /* canonical text of the current value of every pool object */
   for (int i = 0; i < n; ++i) P[i] = pio_new(vtok[4 + i]);
   int k = 4 + n;
   /* initial pool */
-  for (int i = 0; i < n; ++i) { if (i) putchar(' '); print_obj(P[i]); }
+  for (int i = 0; i < n; ++i) { if (i) putchar(' '); T[i] = print_obj(P[i]); }
+/* an operand with the value of pool object j that no API call has touched since pio_new */
+#define FRESH(j) pio_new(T[j])
   while (k < vntok) {
     const char* op = vtok[k];
     printf(" ;");
 #define IDX(j) atoi(vtok[k + (j)])
-    if (!strcmp(op, "add")) { lp_polynomial_add(P[IDX(1)], P[IDX(2)], P[IDX(3)]); k += 4; }
-    else if (!strcmp(op, "sub")) { lp_polynomial_sub(P[IDX(1)], P[IDX(2)], P[IDX(3)]); k += 4; }
-    else if (!strcmp(op, "mul")) { lp_polynomial_mul(P[IDX(1)], P[IDX(2)], P[IDX(3)]); k += 4; }
-    else if (!strcmp(op, "addmul")) { lp_polynomial_add_mul(P[IDX(1)], P[IDX(2)], P[IDX(3)]); k += 4; }
-    else if (!strcmp(op, "submul")) { lp_polynomial_sub_mul(P[IDX(1)], P[IDX(2)], P[IDX(3)]); k += 4; }
-    else if (!strcmp(op, "neg")) { lp_polynomial_neg(P[IDX(1)], P[IDX(2)]); k += 3; }
-    else if (!strcmp(op, "asg")) { lp_polynomial_assign(P[IDX(1)], P[IDX(2)]); k += 3; }
-    else if (!strcmp(op, "der")) { lp_polynomial_derivative(P[IDX(1)], P[IDX(2)]); k += 3; }
-    else if (!strcmp(op, "mulc")) {
-      lp_integer_t c; mpz_init_set_str(&c, vtok[k + 3], 10);
-      lp_polynomial_mul_integer(P[IDX(1)], P[IDX(2)], &c); mpz_clear(&c); k += 4;
-    }
-    else if (!strcmp(op, "pow")) { lp_polynomial_pow(P[IDX(1)], P[IDX(2)], (unsigned) IDX(3)); k += 4; }
-    else if (!strcmp(op, "shl")) {
-      /* lp_polynomial_shl is documented for non-constant polynomials only */
-      if (lp_polynomial_is_constant(P[IDX(2)])) printf("=skip");
-      else lp_polynomial_shl(P[IDX(1)], P[IDX(2)], (unsigned) IDX(3));
-      k += 4;
-    }
-    else if (!strcmp(op, "addmon")) {
-      /* one term "c*xI^E..." added with lp_polynomial_add_monomial, variables pushed in the order written */
-      const char* c = vtok[k + 2];
-      const char* e = c; if (*e == '-') ++e; while (*e >= '0' && *e <= '9') ++e;
-      char* num = strndup(c, (size_t)(e - c));
-      lp_integer_t a; mpz_init_set_str(&a, num, 10); free(num);
-      lp_monomial_t m; lp_monomial_construct(pio_ctx, &m); lp_monomial_set_coefficient(pio_ctx, &m, &a);
-      c = e;
-      while (*c == '*') { c += 2; int idx = (int) strtol(c, (char**)&c, 10); ++c; unsigned long ex = strtoul(c, (char**)&c, 10);
-        if (ex > 0) lp_monomial_push(&m, pio_x[idx], (size_t) ex); }
-      lp_polynomial_add_monomial(P[IDX(1)], &m);
-      lp_monomial_destruct(&m); mpz_clear(&a); k += 3;
+    if (op_is_dest(op)) {
+      int ni = op_nidx(op);
+      if ((!strcmp(op, "shl") || !strcmp(op, "red")) && lp_polynomial_is_constant(P[IDX(2)])) {
+        /* documented for non-constant polynomials only */
+        printf("=skip"); k += !strcmp(op, "shl") ? 4 : 3;
+      } else {
+        /* first on FRESH operands (rebuilt from the current values; nothing has touched them since pio_new, same
+         * aliasing pattern), then in place on the pool objects with their histories: same result expected */
+        lp_polynomial_t* F[MAXPOOL]; for (int i = 0; i < MAXPOOL; ++i) F[i] = NULL;
+        for (int j = 1; j <= ni; ++j) if (!F[IDX(j)]) F[IDX(j)] = pio_new(T[IDX(j)]);
+        do_op(F, k);
+        char* ft = pio_sprint(F[IDX(1)]); printf("~%s", ft); free(ft);
+        for (int i = 0; i < MAXPOOL; ++i) if (F[i]) lp_polynomial_delete(F[i]);
+        k += do_op(P, k);
+      }
     }
     else if (!strcmp(op, "ord")) {
       set_order_from(vtok[k + 1]);
@@ -206,13 +281,13 @@ static void run_mv(void) {
         c = *e ? e + 1 : e;
       }
       lp_integer_t out; mpz_init(&out);
-      lp_polynomial_evaluate_integer(P[IDX(1)], M, &out);
+      { lp_polynomial_t* A = FRESH(IDX(1)); lp_polynomial_evaluate_integer(A, M, &out); lp_polynomial_delete(A); }
       printf("="); print_z(&out);
       mpz_clear(&out); lp_assignment_delete(M); k += 3;
     }
     else if (!strcmp(op, "touni")) {
       /* multivariate -> univariate -> multivariate round trip of P[a] */
-      lp_polynomial_t* A = P[IDX(1)];
+      lp_polynomial_t* A = FRESH(IDX(1));
       lp_upolynomial_t* u = lp_polynomial_to_univariate(A);
       if (!u) printf("=none");
       else {
@@ -222,6 +297,7 @@ static void run_mv(void) {
         printf("="); print_obj(back);
         lp_polynomial_delete(back); lp_upolynomial_delete(u);
       }
+      lp_polynomial_delete(A);
       k += 2;
     }
     else if (!strcmp(op, "fromuni")) {
@@ -233,26 +309,33 @@ static void run_mv(void) {
     }
     else if (!strcmp(op, "obs")) {
       /* observers of one pool object */
-      const lp_polynomial_t* A = P[IDX(1)];
-      lp_integer_t lcc; mpz_init(&lcc); lp_polynomial_lc_constant(A, &lcc);
-      printf("=L%dU%dM%dS%dC%d:", lp_polynomial_is_linear(A), lp_polynomial_is_univariate(A), lp_polynomial_is_monomial(A),
-             lp_polynomial_lc_sgn(A), lp_polynomial_lc_is_constant(A));
+      int a = IDX(1);
+#define OBS(var, expr) do { lp_polynomial_t* A = FRESH(a); var = (expr); lp_polynomial_delete(A); } while (0)
+      int o_lin, o_uni, o_mon, o_sgn, o_lcc;
+      OBS(o_lin, lp_polynomial_is_linear(A)); OBS(o_uni, lp_polynomial_is_univariate(A)); OBS(o_mon, lp_polynomial_is_monomial(A));
+      OBS(o_sgn, lp_polynomial_lc_sgn(A)); OBS(o_lcc, lp_polynomial_lc_is_constant(A));
+      lp_integer_t lcc; mpz_init(&lcc);
+      { lp_polynomial_t* A = FRESH(a); lp_polynomial_lc_constant(A, &lcc); lp_polynomial_delete(A); }
+      printf("=L%dU%dM%dS%dC%d:", o_lin, o_uni, o_mon, o_sgn, o_lcc);
       print_z(&lcc); mpz_clear(&lcc);
-      lp_variable_list_t vars; lp_variable_list_construct(&vars); lp_polynomial_get_variables(A, &vars);
+      lp_variable_list_t vars; lp_variable_list_construct(&vars);
+      { lp_polynomial_t* A = FRESH(a); lp_polynomial_get_variables(A, &vars); lp_polynomial_delete(A); }
       printf(":V");
       for (int v = 0; v < PIO_NV; ++v) if (lp_variable_list_contains(&vars, pio_x[v])) printf("%d,", v);
       printf("#%zu", lp_variable_list_size(&vars));
       lp_variable_list_destruct(&vars);
-      { lp_polynomial_t cp; lp_polynomial_construct_copy(&cp, A); printf(":K"); pio_print(&cp); lp_polynomial_destruct(&cp); }
-      if (lp_polynomial_is_monomial(A)) {
+      { lp_polynomial_t* A = FRESH(a); lp_polynomial_t cp; lp_polynomial_construct_copy(&cp, A); printf(":K"); pio_print(&cp);
+        lp_polynomial_destruct(&cp); lp_polynomial_delete(A); }
+      if (o_mon) {
+        lp_polynomial_t* A = FRESH(a);
         lp_monomial_t m; lp_monomial_construct(pio_ctx, &m); lp_polynomial_to_monomial(A, &m);
-        printf(":T"); print_monomial(&m); lp_monomial_destruct(&m);
+        printf(":T"); print_monomial(&m); lp_monomial_destruct(&m); lp_polynomial_delete(A);
       }
       k += 2;
     }
     else if (!strcmp(op, "isas")) {
       lp_assignment_t* M = mk_assignment(vtok[k + 3], (unsigned) IDX(2));
-      printf("=%d", lp_polynomial_is_assigned(P[IDX(1)], M));
+      { lp_polynomial_t* A = FRESH(IDX(1)); printf("=%d", lp_polynomial_is_assigned(A, M)); lp_polynomial_delete(A); }
       lp_assignment_delete(M); k += 4;
     }
     else if (!strcmp(op, "touvm")) {
@@ -267,17 +350,13 @@ static void run_mv(void) {
       if (!okk) printf("=skip");
       else {
         lp_assignment_t* M = mk_assignment(vtok[k + 3], mask);
-        lp_upolynomial_t* u = lp_polynomial_to_univariate_m(A, M);
+        lp_polynomial_t* Af = FRESH(IDX(1));
+        lp_upolynomial_t* u = lp_polynomial_to_univariate_m(Af, M);
+        lp_polynomial_delete(Af);
         printf("="); u_print(u); lp_upolynomial_delete(u); lp_assignment_delete(M);
       }
       k += 4;
     }
-    else if (!strcmp(op, "red")) {
-      if (lp_polynomial_is_constant(P[IDX(2)])) printf("=skip");
-      else lp_polynomial_reductum(P[IDX(1)], P[IDX(2)]);
-      k += 3;
-    }
-    else if (!strcmp(op, "gcoef")) { lp_polynomial_get_coefficient(P[IDX(1)], P[IDX(2)], (size_t) IDX(3)); k += 4; }
     else if (!strcmp(op, "mgcd")) {
       if (K != lp_Z) printf("=skip");
       else {
@@ -289,18 +368,10 @@ static void run_mv(void) {
       }
       k += 3;
     }
-    else if (!strcmp(op, "addmon2")) {
-      /* add_monomial with a monomial produced by the lp_monomial_* helpers, and through a copy */
-      lp_monomial_t m, m2; lp_monomial_construct(pio_ctx, &m);
-      mk_monomial(vtok[k + 2], &m, 0);
-      lp_monomial_construct_copy(pio_ctx, &m2, &m, IDX(1) % 2);
-      lp_polynomial_add_monomial(P[IDX(1)], &m2);
-      lp_monomial_destruct(&m); lp_monomial_destruct(&m2); k += 3;
-    }
     else { printf("UNKNOWN-OP %s", op); break; }
-    for (int i = 0; i < n; ++i) { putchar(' '); print_obj(P[i]); }
+    for (int i = 0; i < n; ++i) { putchar(' '); free(T[i]); T[i] = print_obj(P[i]); }
   }
-  for (int i = 0; i < n; ++i) lp_polynomial_delete(P[i]);
+  for (int i = 0; i < n; ++i) { lp_polynomial_delete(P[i]); free(T[i]); }
   pio_done();
   rmring(K);
 }
